@@ -588,6 +588,8 @@ class ProgGen:
         fams["gstruct"] = ch.draw(4, "fam_gstruct") == 0
         fams["affine"] = ch.draw(4, "fam_affine") == 0
         fams["custext"] = ch.draw(5, "fam_custext") == 0
+        fams["borrowcomp"] = ch.draw(4, "fam_borrowcomp") == 0
+        fams["externct"] = ch.draw(3, "fam_externct") == 0
         if fams["qhelpers"]:
             self.qhelpers = True
             src += ["@guppy", f"def {prefix}qgate(q: qubit) -> None:", "    h(q)", "    x(q)", "",
@@ -671,6 +673,24 @@ class ProgGen:
                     "        acc += 1", "    return acc", ""]
             defs += [f"{prefix}opt", f"{prefix}eith", f"{prefix}sums"]
             sigs.append(FnSig(f"{prefix}sums", [("x", "int"), ("c", "bool")], "int", "sumtypes"))
+        if fams["externct"]:
+            # a definition created from a TYPE STRING with a comptime argument that reads a
+            # Python variable of the user's module (the variable may be rebound between ops)
+            src += [f"{prefix}NCT = 2", f"{prefix}tbl = guppy._extern(\"{prefix}tbl\", ty=\"array[int, comptime({prefix}NCT)]\")", "",
+                    "@guppy", f"def {prefix}tsize() -> int:", f"    return len({prefix}tbl)", ""]
+            defs += [f"{prefix}tbl", f"{prefix}tsize"]
+            sigs.append(FnSig(f"{prefix}tsize", [], "int", "externct"))
+        if fams["borrowcomp"]:
+            # comprehensions whose body borrows several non-copyable outer places
+            src += ["@guppy", f"def {prefix}bsum(xa: array[int, 3], xb: array[int, 3], xc: array[int, 3]) -> int:",
+                    "    return xa[0] + xb[1] + xc[2]", "",
+                    "@guppy", f"def {prefix}bcomp(n: int) -> int:",
+                    "    alpha = array(1, 2, 3)", "    beta = array(4, 5, n)", "    gamma = array(n, 8, 9)",
+                    f"    ys = array({prefix}bsum(alpha, beta, gamma) + i for i in range(3))",
+                    f"    zs = array({prefix}bsum(gamma, alpha, beta) + j + ys[0] for j in range(2))",
+                    "    return ys[1] + zs[0] + alpha[0] + beta[0] + gamma[0]", ""]
+            defs += [f"{prefix}bsum", f"{prefix}bcomp"]
+            sigs.append(FnSig(f"{prefix}bcomp", [("n", "int")], "int", "borrowcomp"))
         if fams["custext"]:
             # a user-defined hugr extension with one op, exposed through @hugr_op
             src += [f"{prefix}XEXT = _he.Extension(\"demo.ext{ch.draw(3, 'ext_n')}\", _he.Version(0, 1, 0))",
@@ -790,7 +810,7 @@ class ProgGen:
         # make sure every family is reachable from main
         env = {p: t for p, t in sig.params}
         for s in sigs:
-            if self.ch.draw(2, "use_" + s.kind) or s.kind in ("comptime", "ctarg2", "custext"):
+            if self.ch.draw(2, "use_" + s.kind) or s.kind in ("comptime", "ctarg2", "custext", "borrowcomp"):
                 args = ", ".join(b.expr(env, t, 2) for _, t in s.params)
                 body.append(f"{s.name}({args})")
         hdr = f"def {sig.name}({', '.join(f'{p}: {t}' for p, t in sig.params)}) -> None:"
